@@ -130,7 +130,7 @@ func (w *workerProc) runJob(job *Job) (msg *Msg, died bool, harness string) {
 			stderr := w.errBuf.String()
 			class := classifyDeath(stderr)
 			if class == "" || lastKey == "" {
-				return nil, true, fmt.Sprintf("worker died outside a journaled mkdb step (key %q): %s", lastKey, tail(stderr, 1500))
+				return nil, true, fmt.Sprintf("worker died outside a journaled mkdb step (job seed %d, key %q): %s ... %s", job.Seed, lastKey, head(stderr, 2500), tail(stderr, 600))
 			}
 			if job.Fatal == nil {
 				job.Fatal = map[string]string{}
@@ -169,6 +169,13 @@ func (w *workerProc) runJob(job *Job) (msg *Msg, died bool, harness string) {
 			return &m, false, ""
 		}
 	}
+}
+
+func head(s string, n int) string {
+	if len(s) > n {
+		return s[:n]
+	}
+	return s
 }
 
 func tail(s string, n int) string {
@@ -812,6 +819,10 @@ func replay(path string) int {
 		return 2
 	}
 	fmt.Printf("replay of %s: event log %s (recorded %s)\n", path, res.EventHash, rf.EventHash)
+	if os.Getenv("SIM_DEBUG") != "" {
+		b, _ := json.Marshal(res.Stats)
+		fmt.Println(string(b), res.Abandoned)
+	}
 	for _, v := range res.Violations {
 		fmt.Println("  ", v.String())
 	}
